@@ -183,7 +183,10 @@ CHECKS.update({
         technique='TLA+ specs MerkleOps/SimpleMerkle.tla (symbolic injective hash, the code\'s recursion) and PartSet.tla (AddPart over claimed '
                   'index x source part x mutation) exhaustively model-checked; every edge of the PartSet graphs replayed on the real '
                   'types.PartSet in all byte-level variants, the real tree required to equal the model\'s tree, and SimpleProof.Verify / '
-                  'NewPartSetFromData / reassembly brute-forced on the real code',
+                  'NewPartSetFromData / reassembly brute-forced on the real code; consensus slice: in the proposal-taking situations of '
+                  'PeerInput.tla (TLC) the real ConsensusState gets a Byzantine same-header-other-body block, then +2/3 prevotes and precommits '
+                  'for the genuine BlockID before any genuine part (driver peerinput): ProposalBlock must be the block decoded from the '
+                  'complete voted part set',
         level=('model_checking',
                'TLC proves ProofComplete and ProofSound (no leaf, index in [-n-1,n+1] or single-field proof mutation other than the genuine one '
                'verifies under the genuine total) for trees of 1-10 leaves, and OnlyGenuineAccepted, RejectLeavesSetUnchanged, StoredGenuine, '
